@@ -20,7 +20,8 @@ def define(m, els, n, kind, d):
     if kind == "constant":
         els[n].equation = float(d)
     elif kind == "stock":
-        els[n].initial_value = float(d)
+        # "@x": the initial value is the element x itself (its value at the start time), otherwise a number
+        els[n].initial_value = els[d[1:]] if isinstance(d, str) else float(d)
     else:
         els[n].equation = eval(d, {"__builtins__": {}}, dict(els, T=sd.time(), sd=sd))
 
@@ -91,7 +92,25 @@ def run_stochastic_constant(seed):
         return "repeating the evaluation of the constant gives other values"
     return None
 
-ops = [('edit', 'f', 'g*0.5'), ('plot', 'f'), ('edit', 'k', 5.0), ('eval', 'o', 1.0), ('plot', 'g'), ('eval', 'k', 0.0), ('plot', 's'), ('eval', 'h', 1.0)]
+def run_long(n_steps, seed):
+    """a long run of a stochastic element: every (element, time) keeps the one value its dependents consumed, however many
+    entries the memo holds by then (bounded: n_steps is stated in the evidence)"""
+    import random as _r
+    _r.seed(seed)
+    m = Model(starttime=0.0, stoptime=float(n_steps), dt=1.0)
+    noise = m.converter("noise"); noise.equation = sd.random(0.0, 1.0)
+    reading = m.converter("reading"); reading.equation = noise * 2.0
+    first = [reading(float(t)) for t in range(n_steps + 1)]
+    for t in range(n_steps + 1):
+        v = noise(float(t))
+        if 2.0 * v != first[t]:
+            return "after %d steps: reading(%d) was computed from noise = %r, noise(%d) is now reported as %r" % (n_steps, t, first[t] / 2.0, t, v)
+    for t in (0, 1, n_steps // 2, n_steps):
+        if reading(float(t)) != first[t]:
+            return "after %d steps: repeating reading(%d) gives %r, the first evaluation gave %r" % (n_steps, t, reading(float(t)), first[t])
+    return None
+
+ops = [('edit', 's', '@k'), ('edit', 'k', 5.0), ('edit', 'o', 'k*0.1'), ('edit', 's', 0.0), ('eval', 'k', 1.0), ('edit', 'f', 'k'), ('edit', 'o', 's*0.2')]
 bad = run(ops)
 print("operations:", ops)
 print("FAIL: " + bad if bad else "PASS")
